@@ -104,7 +104,7 @@ fn dup_admits(d: Duplicate, l: Level) -> bool {
 
 // units: routing = spec x primary (10); duplication = 7 (stderr setting) + 2 (adapt)
 fn units(_tier: &str) -> usize {
-    specs().len() * 2 + DUPS.len() + 2
+    specs().len() * 2 + DUPS.len() + 2 + specs().len()
 }
 fn bounds(_tier: &str) -> Value {
     json!({"brace_lists": brace_lists().len(), "plain_targets": PLAIN.len(), "levels": 5, "module_paths": 3, "specifications": specs().len(), "primary_kinds": 2, "duplicate_grid": "7x7x5 + 2x49x5"})
@@ -129,7 +129,10 @@ fn drain_socket(s: &UnixDatagram) -> Vec<String> {
     v
 }
 
-fn routing(spec_idx: usize, file_primary: bool) -> Result<(u64, u64), Fail> {
+/// `with_writers == false`: a logger without any additional writer still interprets brace
+/// targets - every name except _Default is unknown (reported, delivered nowhere), and _Default
+/// is judged by the record's module path.
+fn routing(spec_idx: usize, file_primary: bool, with_writers: bool) -> Result<(u64, u64), Fail> {
     let spec = specs()[spec_idx].clone();
     let sc = Scratch::new("c13");
     let err = crate::scratch::root().join("err.log");
@@ -177,10 +180,10 @@ fn routing(spec_idx: usize, file_primary: bool) -> Result<(u64, u64), Fail> {
     } else {
         lb.log_to_writer(Box::new(primary.clone()))
     };
+    if with_writers {
+        lb = lb.add_writer("A", Box::new(a.clone())).add_writer("B", Box::new(b)).add_writer("S", s);
+    }
     let (logger, handle) = lb
-        .add_writer("A", Box::new(a.clone()))
-        .add_writer("B", Box::new(b))
-        .add_writer("S", s)
         .build()
         .map_err(|e| Fail {
             clause: "machinery",
@@ -212,20 +215,21 @@ fn routing(spec_idx: usize, file_primary: bool) -> Result<(u64, u64), Fail> {
                 let got_p = if file_primary { flen(&p_file) - p0 } else { primary.take().len() };
                 let got_e = lg::read_errchan(&err).len() - e0;
                 let named = |n: &str| list.as_ref().is_some_and(|l| l.iter().any(|i| NAMES[*i] == n));
-                let want_a = usize::from(named("A"));
-                let want_b = usize::from(named("B") && level <= Level::Warn);
-                let want_s = usize::from(named("S") && level <= Level::Warn);
+                let want_a = usize::from(with_writers && named("A"));
+                let want_b = usize::from(with_writers && named("B") && level <= Level::Warn);
+                let want_s = usize::from(with_writers && named("S") && level <= Level::Warn);
                 let want_p = usize::from(match list {
                     Some(_) => named("_Default") && spec.enabled(level, mp.unwrap_or("")),
                     None => spec.enabled(level, target),
                 });
-                let want_e = usize::from(named("U"));
+                let unknown = if with_writers { usize::from(named("U")) } else { list.as_ref().map_or(0, |l| l.iter().filter(|i| NAMES[**i] != "_Default").count()) };
+                let want_e = unknown;
                 if list.is_some() && (named("A") || named("B") || named("S")) {
                     addressed += 1;
                 }
                 let shape = match list {
                     None => "plain".to_string(),
-                    Some(l) => format!("list{}{}", l.len().min(3), if named("U") { "+unknown" } else { "" }),
+                    Some(l) => format!("list{}{}{}", l.len().min(3), if named("U") { "+unknown" } else { "" }, if with_writers { "" } else { "/no-additional-writers" }),
                 };
                 let ctx = format!("spec `{}` primary={kind} target={target:?} level={level} module_path={mp:?}", spec.text());
                 for (who, got, want, ceiling) in [("custom", got_a, want_a, LevelFilter::Trace), ("file", got_b, want_b, LevelFilter::Warn), ("syslog", got_s, want_s, LevelFilter::Warn)] {
@@ -258,7 +262,8 @@ fn routing(spec_idx: usize, file_primary: bool) -> Result<(u64, u64), Fail> {
                         detail: format!("{ctx}: the default channel received {got_p} record(s), expected {want_p}"),
                     });
                 }
-                if got_e != want_e {
+                // (one line per unknown name; without additional writers only "reported at all" is judged)
+                if if with_writers { got_e != want_e } else { (got_e > 0) != (want_e > 0) } {
                     return Err(Fail {
                         clause: "unknown-not-reported",
                         cause: format!("errchan/{shape}"),
@@ -386,8 +391,11 @@ fn duplication_adapt(stderr: bool) -> Result<u64, Fail> {
 fn run_unit(tier: &str, unit: usize, out: &mut Out) {
     THOROUGH.store(tier != "quick", std::sync::atomic::Ordering::Relaxed);
     let ns = specs().len() * 2;
-    let r: Ran<Result<(u64, u64), Fail>> = if unit < ns {
-        run_isolated(Duration::from_secs(120), move || routing(unit / 2, unit % 2 == 1))
+    let r: Ran<Result<(u64, u64), Fail>> = if unit >= ns + DUPS.len() + 2 {
+        let i = unit - ns - DUPS.len() - 2;
+        run_isolated(Duration::from_secs(120), move || routing(i, false, false))
+    } else if unit < ns {
+        run_isolated(Duration::from_secs(120), move || routing(unit / 2, unit % 2 == 1, true))
     } else if unit < ns + DUPS.len() {
         let d = DUPS[unit - ns];
         run_isolated(Duration::from_secs(120), move || duplication_build(d).map(|n| (n, if matches!(d, Duplicate::None) { 0 } else { n })))
